@@ -480,3 +480,26 @@ Example C09_batch_hist_nonvacuous :
   hist_ok 1 0 0 0 0 0 [(true, (true, (1, 1)))] = false /\
   hist_ok 0 0 0 0 0 0 [(false, (false, (0, 1)))] = false.
 Proof. vm_compute. repeat split. Qed.
+
+(* The order of the release against the sends of a session (Model Part 11): Execute closes the session
+   in its deferred cleanup, after the sends of the first attempt AND of the retry phase - for ALL numbers
+   of sends the ledger is accepted by the judge; a variant that closes when the first attempt is over
+   leaves every send of the retry phase unreleased and is rejected as soon as the retry phase sends
+   anything; the judge means: every send of the session is followed by a CloseSession of it. *)
+Theorem C09_release_after_last_send : forall first retry,
+  released_ok (exec_ledger first retry) = true /\
+  open_sends (early_close_ledger first retry) = retry /\
+  (1 <= retry -> released_ok (early_close_ledger first retry) = false).
+Proof. exact (fun a b => conj (released_ok_model a b) (early_close_refuted a b)). Qed.
+Print Assumptions C09_release_after_last_send.
+
+Theorem C09_released_ok_sound : forall l, released_ok l = true ->
+  forall pre post, l = pre ++ LSend :: post -> In LClose post.
+Proof. exact released_ok_sound. Qed.
+Print Assumptions C09_released_ok_sound.
+
+Example C09_release_nonvacuous :
+  exec_ledger 2 1 = [LSend; LSend; LSend; LClose] /\
+  released_ok [LSend; LClose; LSend] = false /\ released_ok [LSend; LSend] = false /\
+  released_ok [LClose; LSend; LClose] = true /\ released_ok [] = true.
+Proof. vm_compute. repeat split. Qed.
